@@ -394,6 +394,7 @@ class C16(PropBase):
         for _ in range(120 * mult):
             out.append(self.g_random_ts(rng))
         out += self.g_boundary_fmt(rng)
+        out += self.g_repo_vectors()
         for _ in range(60 * mult):
             out.append(self.g_weeks(rng))
         for _ in range(150 * mult):
@@ -653,6 +654,28 @@ class C16(PropBase):
         out.append(self.mk_fmt("range", -1, {"off": 0}, [{"off": 0}, {"off": 1}]))
         return out
 
+    def g_repo_vectors(self):
+        """every timestamp text of txn_ts.rs's unit tests and doc tests (read from the tree under test) as an input
+        instant; the expected texts are computed by the oracle, not taken from the tests"""
+        import os
+        path = os.path.join(os.environ.get("TK_REPO", "/repo"), "tackler-api", "src", "txn_ts.rs")
+        out = []
+        try:
+            src = open(path, encoding="utf-8").read()
+        except OSError:
+            return out
+        seen = set()
+        for m in re.finditer(r'"(\d{4}-\d{2}-\d{2}T\d{2}:\d{2}:\d{2}(?:\.\d{1,9})?(?:Z|[+-]\d{2}:\d{2}))(?:\[[^\]"]*\])?"', src):
+            t = m.group(1)
+            if t in seen:
+                continue
+            seen.add(t)
+            e = expected_ts(t, {})
+            if e and e[0] == "OK":
+                out.append(self.mk_fmt("repo-vector", e[1], {"off": e[2]},
+                                       [{"off": e[2]}, {"off": 0}, {"name": "Europe/Helsinki"}, {"name": "America/New_York"}]))
+        return out
+
     def g_weeks(self, rng):
         y = rng.choice([2009, 2010, 2015, 2016, 2020, 2021, 2024, 2025, 2026, 2027, 1, 2, 1000, 9999, rng.randrange(1, 9999)])
         m, d = rng.choice([(12, 28), (12, 29), (12, 30), (12, 31), (1, 1), (1, 2), (1, 3), (1, 4), (1, 5)])
@@ -694,8 +717,8 @@ class C16(PropBase):
         text = common.render_journal(txns, common.gen_layout(rng))
         k = rng.randrange(2, 5)
         variants = [{"report_tz": z, "ts_style": rng.choice(STYLES)} for z in rng.sample(REPORT_ZONES, k)]
-        return {"op": "run", "kind": "report-tz", "cfg": cfg, "txns": txns, "text": text, "want": ["txns", "register"],
-                "variants": variants}
+        return {"op": "run", "kind": "report-tz", "cfg": cfg, "txns": txns, "text": text,
+                "want": ["txns", "register", "balance"], "variants": variants}
 
     # ---- protocol plumbing
     def impl_case(self, case):
@@ -913,6 +936,22 @@ class C16(PropBase):
                         return {"sig": "register-ts-text", "what": "register shows %r for instant %s in %s, expected %r" % (ts_text_, ns, v, want)}
             else:
                 return {"sig": "register-entries", "what": "register has %d entries for %d transactions under %s" % (len(ent), len(base["v"]), v)}
+        bals = []
+        for v, x in zip(case["variants"], runs):
+            bal = x["out"].get("balance") or {}
+            if bal.get("r") != "OK":
+                return {"sig": "balance-output", "what": "balance report failed under %s: %s" % (v, bal.get("r"))}
+            pb = common.parse_balance_report(bal["v"])
+            if pb is not None:
+                # values, not stored scales: the scale of a tree sum depends on hash order (F8, property C04)
+                try:
+                    pb = ([(c, a, common.dec_norm(o), common.dec_norm(t)) for c, a, o, t in pb[0]],
+                          [(c, common.dec_norm(x)) for c, x in pb[1]])
+                except Exception:
+                    pb = None
+            bals.append(pb)
+        if any(b != bals[0] for b in bals[1:]) or bals[0] is None:
+            return {"sig": "report-tz-changes-balance", "what": "balance rows/deltas differ between report zones %s" % case["variants"]}
         b0 = [(h, rows) for _, h, rows in regs[0]]
         for v, ent in zip(case["variants"][1:], regs[1:]):
             if [(h, rows) for _, h, rows in ent] != b0:
